@@ -319,6 +319,7 @@ type State struct {
 	ghostParams map[string]*V
 	wcache map[string][]wentry
 	mapAx map[string]bool
+	famEpoch map[string]int
 	allocRefs map[string]bool
 	deferStacks [][]*deferRec
 	stack []*ssa.Function
@@ -371,6 +372,10 @@ func (s *State) clone() *State {
 	n.wcache = make(map[string][]wentry, len(s.wcache))
 	for k, v := range s.wcache {
 		n.wcache[k] = v
+	}
+	n.famEpoch = make(map[string]int, len(s.famEpoch))
+	for k, v := range s.famEpoch {
+		n.famEpoch[k] = v
 	}
 	n.mapAx = make(map[string]bool, len(s.mapAx))
 	for k, v := range s.mapAx {
@@ -443,7 +448,18 @@ func (s *State) comp(leaf string, levels int, leafsort string) string {
 		s.run.errs = append(s.run.errs, fmt.Sprintf("component %s used at two sorts: %s vs %s", leaf, old, sort))
 	}
 	s.run.eng.compSort[leaf] = sort
-	name := mangle(fmt.Sprintf("%s@%d", leaf, s.epoch))
+	ep := s.epoch
+	fam := leaf
+	if i := strings.Index(leaf, "#"); i >= 0 {
+		fam = leaf[:i]
+	}
+	if e, ok := s.famEpoch[fam]; ok && e > ep {
+		ep = e
+	}
+	if e, ok := s.famEpoch[leaf]; ok && e > ep {
+		ep = e
+	}
+	name := mangle(fmt.Sprintf("%s@%d", leaf, ep))
 	s.run.declare(name, sort)
 	s.heap[leaf] = name
 	return name
@@ -531,7 +547,9 @@ func (s *State) havocLeaf(leaf string) {
 	delete(s.wcache, leaf)
 	sort, ok := s.run.eng.compSort[leaf]
 	if !ok {
+		// not materialised yet: make sure a later first use does not pick the pre-havoc name
 		delete(s.heap, leaf)
+		s.famEpoch[leaf] = s.run.nextEpoch()
 		return
 	}
 	s.heap[leaf] = s.run.fresh(leaf, sort)
@@ -539,6 +557,8 @@ func (s *State) havocLeaf(leaf string) {
 
 // havocFamily havocs every leaf whose name is fam or starts with fam+"#".
 func (s *State) havocFamily(fam string) {
+	// leaves of the family that have not been materialised yet get a new epoch as well
+	s.famEpoch[fam] = s.run.nextEpoch()
 	for leaf := range s.run.eng.compSort {
 		if leaf == fam || strings.HasPrefix(leaf, fam+"#") {
 			s.havocLeaf(leaf)
